@@ -380,6 +380,7 @@ pub fn write_spec(mix: WriteMix, nkeys: usize, nblobs: usize) -> impl Strategy<V
                 decoy_opts,
                 chdir_mid: None,
                 churn: 0,
+                crowd: 0,
             };
             normalise_write(&mut s);
             s
@@ -483,6 +484,7 @@ pub fn bdamage() -> impl Strategy<Value = BDamage> {
         1 => garbage_line().prop_map(BDamage::AppendRaw),
         2 => any::<u16>().prop_map(|o| BDamage::AppendLineFrom(o as usize)),
         2 => (0usize..6).prop_map(BDamage::CrBeforeLf),
+        1 => Just(BDamage::BecomeSymlink),
         1 => (prop_oneof![Just(70_000usize), Just(300_000usize), Just(1_100_000usize)], prop_oneof![Just(100usize), Just(5000usize), Just(2_000_000usize)], any::<u16>()).prop_map(|(total, line, salt)| BDamage::GarbageTail { total, line, salt: salt as u64 }),
     ]
 }
